@@ -271,6 +271,8 @@ def oracle_reactor(ctx, rng, n_cases, max_steps=400):
         if rng.random() < 0.3:
             case['setup']['conv_approx'] = True
             case['setup']['conv_approx_dz_cutoff'] = 1.0
+        if ci % 2 == 1:
+            gi.random_setup_options(rng, case)
         d = str(ctx.work / ("r%d" % ci))
         try:
             inp, r = gi.build_reactor(case, d)
